@@ -1369,7 +1369,7 @@ innerloop4:
         vshufps ymm5, ymm2, ymm3, 221
         vmovups ymm2, ymmword ptr [r8+rdx-20H]
         vinsertf128 ymm2, ymm2, xmmword ptr [r9+rdx-20H], 01H
-        vmovups ymm3, ymmword ptr [r8+rdx-10H]
+        vmovups xmm3, xmmword ptr [r8+rdx-10H]
         vinsertf128 ymm3, ymm3, xmmword ptr [r9+rdx-10H], 01H
         vshufps ymm6, ymm2, ymm3, 136
         vshufps ymm7, ymm2, ymm3, 221
@@ -1383,7 +1383,7 @@ innerloop4:
         vshufps ymm13, ymm10, ymm11, 221
         vmovups ymm10, ymmword ptr [r10+rdx-20H]
         vinsertf128 ymm10, ymm10, xmmword ptr [r11+rdx-20H], 01H
-        vmovups ymm11, ymmword ptr [r10+rdx-10H]
+        vmovups xmm11, xmmword ptr [r10+rdx-10H]
         vinsertf128 ymm11, ymm11, xmmword ptr [r11+rdx-10H], 01H
         vshufps ymm14, ymm10, ymm11, 136
         vshufps ymm15, ymm10, ymm11, 221
@@ -1593,7 +1593,7 @@ innerloop2:
         vshufps ymm5, ymm8, ymm9, 221
         vmovups ymm8, ymmword ptr [r8+rdx-20H]
         vinsertf128 ymm8, ymm8, xmmword ptr [r9+rdx-20H], 01H
-        vmovups ymm9, ymmword ptr [r8+rdx-10H]
+        vmovups xmm9, xmmword ptr [r8+rdx-10H]
         vinsertf128 ymm9, ymm9, xmmword ptr [r9+rdx-10H], 01H
         vshufps ymm6, ymm8, ymm9, 136
         vshufps ymm7, ymm8, ymm9, 221
